@@ -148,20 +148,24 @@ fn rounds(k: usize) {
     }
 }
 
-/// Rounds until all `n` nodes are destructed. The cascade shapes get a fixed budget; the fan-out
-/// shapes, whose every node is a deferred closure of its own (up to one bag per node when the
-/// thread's handle is already gone), run for as long as there is progress.
+/// Rounds until all `n` nodes are destructed. The cascade shapes get a fixed budget. The fan-out
+/// shapes, whose every node is a deferred closure of its own (up to one bag per node, plus one
+/// retired participant per release when the thread's handle is already gone, all of which queue up
+/// in front of the next level's closures), run for as long as the garbage queue is not empty.
 fn finish(n: usize, fan: bool) -> usize {
-    let max_rounds = if fan { n + 64 } else { 64 + 16 * (n / 1024 + 1) };
+    let max_rounds = if fan { 4 * n + 64 } else { 64 + 16 * (n / 1024 + 1) };
     let mut used = 0;
-    let mut idle = 0;
-    let mut last = DROPS.load(Ordering::Relaxed);
-    while last < n && used < max_rounds && idle < 64 {
+    let mut empty = 0;
+    while DROPS.load(Ordering::Relaxed) < n && used < max_rounds && empty < 8 {
         rounds(1);
         used += 1;
-        let now = DROPS.load(Ordering::Relaxed);
-        idle = if now == last { idle + 1 } else { 0 };
-        last = now;
+        if fan {
+            empty = if cv::queue_front_epoch().is_none() { empty + 1 } else { 0 };
+        }
+        if std::env::var("C07_DEBUG").is_ok() && used % 5000 == 0 {
+            let c: Vec<usize> = COUNTS.iter().map(|x| x.load(Ordering::Relaxed)).collect();
+            eprintln!("round {} drops {} epoch {} front bag sealed in {:?}; sealed {} expired {} td-deferred {} td-run {}", used, DROPS.load(Ordering::Relaxed), cv::global_epoch(), cv::queue_front_epoch(), c[0], c[1], c[2], c[3]);
+        }
     }
     used
 }
@@ -229,6 +233,43 @@ fn no_quarantine(_: usize) -> bool {
 static COLLIDER: cv::Hooks = cv::Hooks {
     point: collide,
     event: no_event,
+    quarantine: no_quarantine,
+};
+
+// ---- optional measurement (env C07_MEASURE=1): stack window seen at the library's yield points
+
+static SP_MIN: AtomicUsize = AtomicUsize::new(usize::MAX);
+static SP_MAX: AtomicUsize = AtomicUsize::new(0);
+fn measure(_: cv::Class, _: usize) {
+    let probe = 0u8;
+    let sp = &probe as *const u8 as usize;
+    SP_MIN.fetch_min(sp, Ordering::Relaxed);
+    SP_MAX.fetch_max(sp, Ordering::Relaxed);
+}
+static HIST: std::sync::Mutex<std::collections::BTreeMap<(usize, usize), usize>> = std::sync::Mutex::new(std::collections::BTreeMap::new());
+static COUNTS: [AtomicUsize; 8] = [const { AtomicUsize::new(0) }; 8];
+fn count_event(e: &cv::Event) {
+    let i = match e {
+        cv::Event::BagSealed { len, epoch } => {
+            COUNTS[6].fetch_add(*len, Ordering::Relaxed);
+            if std::env::var("C07_DEBUG").is_ok() {
+                let mut h = HIST.lock().unwrap();
+                *h.entry(((*epoch).min(20), (*len).min(65))).or_insert(0usize) += 1;
+            }
+            0
+        }
+        cv::Event::BagExpired { .. } => 1,
+        cv::Event::RcDefer { kind: 0, .. } => 2,
+        cv::Event::RcRun { kind: 0, .. } => 3,
+        cv::Event::Registered { .. } => 4,
+        cv::Event::Finalized { .. } => 5,
+        _ => return,
+    };
+    COUNTS[i].fetch_add(1, Ordering::Relaxed);
+}
+static MEASURE: cv::Hooks = cv::Hooks {
+    point: measure,
+    event: count_event,
     quarantine: no_quarantine,
 };
 
@@ -301,7 +342,11 @@ pub fn run_case(shape: usize, n: usize, stack_kib: usize, ctx: usize) -> i32 {
         .unwrap()
         .join()
         .unwrap();
+    let measuring = std::env::var("C07_MEASURE").is_ok();
     let work = move || {
+        if measuring {
+            cv::install(&MEASURE);
+        }
         if ctx == 0 {
             destroy(head, n);
         } else {
@@ -332,6 +377,14 @@ pub fn run_case(shape: usize, n: usize, stack_kib: usize, ctx: usize) -> i32 {
     finish(n, shape >= 5);
     let d = DROPS.load(Ordering::Relaxed);
     println!("DESTRUCTED {} of {}", d, n);
+    if measuring {
+        println!("STACK_WINDOW {} bytes", SP_MAX.load(Ordering::Relaxed).saturating_sub(SP_MIN.load(Ordering::Relaxed)));
+        let c: Vec<usize> = COUNTS.iter().map(|x| x.load(Ordering::Relaxed)).collect();
+        if std::env::var("C07_DEBUG").is_ok() {
+            println!("bags by (epoch capped at 20, closures): {:?}", HIST.lock().unwrap());
+        }
+        println!("bags sealed {} (closures {}) expired {}; try_destruct deferred {} run {}; participants registered {} finalized {}", c[0], c[6], c[1], c[2], c[3], c[4], c[5]);
+    }
     if d == n {
         0
     } else {
